@@ -29,7 +29,7 @@ PROPS = {
     "C04": {
         "level_text": "Coq theorems (axiom-free) over a Gallina model of the rule evaluator (Rule::match_node_with_env for all 13 operators, ops::All/Any/Not, relational rules with stopBy/field, nthChild.ofRule, matches, RuleCore constraints) in which the environment is threaded exactly as the Rust threads it and is returned on failure too: a rejected rule leaves the environment untouched, the reported candidate of a relational rule / the winning `any` branch was evaluated from the original environment, `all` is the left-to-right union, and the pattern matcher only re-binds a name to structurally identical code. Tied on every run: random rule objects sharing variable names across all operators are loaded by the real loader and evaluated on every node of real trees; outcome, returned node and the full environment are diffed against the extracted model",
         "level_note": "trusted: Coq kernel, extraction + driver, Rust harness (rule generator, wire encoding of rules); regex is an oracle (node ids the regex matches); the ellipsis look-ahead inside ONE pattern can leave a binding made for a rejected alignment (known finding, see known_findings.txt)",
-        "streams": ["c04"],
+        "streams": ["c04", "c04x", "c04g"],
         "cli": False,
         "stream_timeout": 2400,
         "trusted": ["regex atoms enter the model as the set of nodes whose text the real regex matches"],
